@@ -116,6 +116,8 @@ type JobResult struct {
 	SolverTimeS  float64           `json:"solver_time_s"`
 	WallS        float64           `json:"wall_s"`
 	Complete     bool              `json:"complete"`
+	NotRun       bool              `json:"not_run,omitempty"`     // the run's time budget was used up before this job started
+	CutByBudget  bool              `json:"cut_by_budget,omitempty"` // the run's time budget ended this job early: what it explored counts, the rest is outside the bound
 	Error        string            `json:"error,omitempty"`
 	SolverErrors []string          `json:"solver_errors,omitempty"`
 	Notes        map[string]string `json:"notes,omitempty"`
@@ -837,6 +839,12 @@ func (e *Engine) runJob(job *Job) *JobResult {
 	} else {
 		e.deadline = time.Time{}
 	}
+	cutAt := time.Time{}
+	if !e.runEnd.IsZero() && (e.deadline.IsZero() || e.runEnd.Before(e.deadline)) {
+		// the whole run's budget ends before this job's own: the job is cut there
+		e.deadline = e.runEnd
+		cutAt = e.runEnd
+	}
 	st0 := e.solver.Stats
 	fn := e.lookupHarness(job.Harness)
 	if fn.Fn == nil {
@@ -891,6 +899,9 @@ func (e *Engine) runJob(job *Job) *JobResult {
 				}
 			}
 		}
+	}
+	if !res.Complete && !cutAt.IsZero() && !time.Now().Before(cutAt) {
+		res.CutByBudget = true
 	}
 	st1 := e.solver.Stats
 	res.Queries = st1.Queries - st0.Queries
